@@ -38,3 +38,87 @@ package grpc
 //@ func (g *Gun) Answ
 //@ trusted
 //@ modifies nothing
+
+// ---------------------------------------------------------------- binding and shared dependencies (C11, C20)
+
+//@ func (g *Gun) Shoot
+//@ props C10 C20
+// (a bound gun, fed by the grpc/json provider: its ammo is *ammo.Ammo)
+//@ requires typeis(am, *ammo.Ammo) && am.(*ammo.Ammo) != nil && g.Aggr != nil && g.Stub != nil
+//@ at call g.shoot assert [the-given-ammo] box(arg(ammo)) == am
+
+// A gun needs the warm-up result; with a shared client pool it takes the next pooled client, otherwise it makes its own connection.
+//@ func (g *Gun) Bind
+//@ props C11 C20
+//@ nilsafe
+//@ requires deps.Log != nil
+//@ ensures [warm-up-result-required] imp(!typeis(deps.Shared, *SharedDeps), result != nil && calls(g.makeConnect) == 0)
+//@ ensures [method-table-from-warm-up] imp(result == nil, g.Services == deps.Shared.(*SharedDeps).services && g.Aggr == aggr)
+//@ ensures [pooled-client-when-shared] imp(typeis(deps.Shared, *SharedDeps) && deps.Shared.(*SharedDeps).clientPool != nil, calls(g.makeConnect) == 0 && result == nil)
+//@ ensures [own-connection-otherwise] imp(typeis(deps.Shared, *SharedDeps) && deps.Shared.(*SharedDeps).clientPool == nil, calls(g.makeConnect) == 1 && iff(result != nil, result_of(g.makeConnect, 1) != nil))
+//@ at call grpcdynamic.NewStub assert [stub-over-the-own-connection] arg(a0) == box(result_of(g.makeConnect, 0))
+
+//@ func (g *Gun) createSharedDeps
+//@ props C20 C11
+//@ nilsafe
+//@ ensures [reflection-failure-is-returned] imp(result_of(g.prepareMethodList, 1) != nil, result1 == result_of(g.prepareMethodList, 1) && result0 == nil && calls(g.prepareClientPool) == 0)
+//@ ensures [pool-failure-is-returned] imp(calls(g.prepareClientPool) == 1 && result_of(g.prepareClientPool, 1) != nil, result1 == result_of(g.prepareClientPool, 1) && result0 == nil)
+//@ ensures [one-table-shared-by-all-instances] imp(result1 == nil, result0 != nil && result0.services == result_of(g.prepareMethodList, 0) && result0.clientPool == result_of(g.prepareClientPool, 0))
+
+//@ func (g *Gun) WarmUp
+//@ props C20 C11
+//@ nilsafe
+//@ ensures imp(result_of(g.createSharedDeps, 1) != nil, result1 == result_of(g.createSharedDeps, 1))
+
+// A pool of client-number connections (at least one) when shared clients are enabled; none otherwise.
+//@ func (g *Gun) prepareClientPool
+//@ props C11
+//@ nilsafe
+//@ ensures [no-pool-unless-enabled] imp(!old(g.Conf.SharedClient.Enabled), result0 == nil && result1 == nil && calls(g.makeConnect) == 0)
+//@ ensures [at-least-one-client] imp(old(g.Conf.SharedClient.Enabled), g.Conf.SharedClient.ClientNumber >= 1)
+//@ loop 0 invariant [one-client-per-round] calls(clientPool.Add) == i && i >= 0 && i <= g.Conf.SharedClient.ClientNumber && clientPool != nil && imp(calls(g.makeConnect) > 0, result_of(g.makeConnect, 1) == nil)
+//@ ensures [pool-of-the-configured-size] imp(old(g.Conf.SharedClient.Enabled) && result1 == nil, calls(clientPool.Add) == g.Conf.SharedClient.ClientNumber)
+//@ ensures [connection-failure-is-returned] imp(calls(g.makeConnect) > 0 && result_of(g.makeConnect, 1) != nil, result1 != nil && result0 == nil)
+//@ modifies g.Conf.SharedClient.ClientNumber
+
+//@ func (g *Gun) makeConnect
+//@ props C20
+//@ modifies nothing
+//@ at call MakeGRPCConnect assert [configured-target-and-options] arg(target) == g.Conf.Target && arg(isTLS) == g.Conf.TLS && arg(dialOptions) == g.Conf.DialOptions
+
+//@ func (g *Gun) makeReflectionConnect
+//@ props C20
+//@ modifies nothing
+//@ at call replacePort assert [reflection-port] arg(host) == g.Conf.Target && arg(port) == g.Conf.ReflectPort
+//@ at call MakeGRPCConnect assert [reflection-target] arg(target) == result_of(replacePort, 0) && arg(isTLS) == g.Conf.TLS
+
+//@ func DefaultGunConfig
+//@ props C17 C20
+//@ ensures [documented-defaults] result.Target == "default target" && !result.AnswLog.Enabled && result.AnswLog.Path == "answ.log" && result.AnswLog.Filter == "all" && result.Timeout == 0 && !result.TLS && !result.SharedClient.Enabled
+
+// The reflection target: the given port replaces a numeric port of the target, or is appended; port 0 keeps the target.
+//@ func replacePort
+//@ props C20
+//@ modifies nothing
+//@ ensures [no-reflect-port-keeps-the-target] imp(port == 0, result == host)
+//@ ensures [port-appended-when-the-target-has-none] imp(port != 0 && len(result_of(strings.Split, 0)) == 1, result == host + ":" + result_of(strconv.FormatInt, 0))
+//@ at call strconv.FormatInt assert [decimal-port] arg(a0) == port0 && arg(a1) == 10
+//@ at call strings.Split assert arg(a0) == host0 && arg(a1) == ":"
+
+//@ struct GunConfig
+//@ props C17 C20
+//@ tag Target validate required
+//@ tag ReflectPort config reflect_port
+//@ tag Timeout config timeout
+//@ tag TLS config tls
+
+// Dialling: TLS or plaintext as configured, the configured dial timeout (1 s by default), the configured authority.
+//@ func MakeGRPCConnect
+//@ props C20
+//@ modifies nothing
+//@ at call context.WithTimeout assert [configured-dial-timeout] arg(a1) == ite(dialOptions.Timeout != 0, dialOptions.Timeout, 1000000000)
+//@ at call grpc.WithAuthority assert [configured-authority] arg(a0) == dialOptions.Authority && dialOptions.Authority != ""
+//@ at call grpc.WithInsecure assert [plaintext-only-without-tls] !isTLS
+//@ at call grpc.WithTransportCredentials assert [tls-when-asked] isTLS
+//@ at call grpc.DialContext assert [the-given-target] arg(a1) == target0
+//@ ensures conn == result_of(grpc.DialContext, 0) && err == result_of(grpc.DialContext, 1)
